@@ -24,6 +24,27 @@ type KnownFinding struct {
 	Site     string `json:"site"`
 	What     string `json:"what"`
 	Commit   string `json:"commit,omitempty"`
+	Inputs   []string `json:"inputs,omitempty"` // complete list of failing inputs (when enumerable); any other failing input is a violation
+}
+
+func modelKey(m map[string]interface{}) string {
+	var ks []string
+	for k := range m {
+		if strings.HasSuffix(k, "$text") {
+			continue
+		}
+		ks = append(ks, k)
+	}
+	sort.Strings(ks)
+	var parts []string
+	for _, k := range ks {
+		if t, ok := m[k+"$text"]; ok {
+			parts = append(parts, fmt.Sprintf("%s=%v", k, t))
+		} else {
+			parts = append(parts, fmt.Sprintf("%s=%v", k, m[k]))
+		}
+	}
+	return strings.Join(parts, ",")
 }
 
 func loadKnown(path string) []KnownFinding {
@@ -283,6 +304,43 @@ func cmdCheck(args []string) {
 						if known[k].Property == *prop && known[k].ID == id && known[k].Kind == "known" {
 							match = &known[k]
 						}
+					}
+					if match != nil && len(match.Inputs) > 0 {
+						// the finding is identified by its complete input list: enumerate and compare
+						if len(o.AllModels) == 0 || !o.AllComplete {
+							inconclusive++
+							lines = append(lines, fmt.Sprintf("INCONCLUSIVE property=%s harness=%s: failing inputs of known finding %s could not be enumerated completely", *prop, s.Name, id))
+							continue
+						}
+						listed := map[string]bool{}
+						for _, in := range match.Inputs {
+							listed[in] = true
+						}
+						newOnes := 0
+						for mi, m := range o.AllModels {
+							if listed[modelKey(m)] {
+								continue
+							}
+							// an input the file does not list: a different violation of the same property
+							doc2 := &ReplayDoc{Property: *prop, Harness: s.Name, Pkg: s.Pkg, Assertion: o.Name, Kind: o.Kind, Values: m}
+							p2 := filepath.Join(replayDir, fmt.Sprintf("%s-%d-new%d.json", s.Name, i, mi))
+							b2, _ := json.MarshalIndent(doc2, "", " ")
+							os.WriteFile(p2, b2, 0o644)
+							if _, ok2 := w.replayNative(ovp, doc2, p2, false); ok2 {
+								newOnes++
+								violations++
+								lines = append(lines, fmt.Sprintf("VIOLATION property=%s replay=%s", *prop, p2))
+								samples = append(samples, map[string]interface{}{"harness": s.Name, "violates": o.Name, "input": m, "note": "not in the known-findings list"})
+							} else {
+								inconclusive++
+								lines = append(lines, fmt.Sprintf("ENGINE-MISMATCH property=%s harness=%s: unlisted failing input %s does not reproduce natively", *prop, s.Name, modelKey(m)))
+							}
+						}
+						if !knownSeen[id] {
+							knownSeen[id] = true
+							lines = append(lines, fmt.Sprintf("KNOWN-FINDING: property=%s %s [%s] %d listed inputs, %d enumerated by the solver, %d unlisted; witness=%s", *prop, match.What, match.Site, len(match.Inputs), len(o.AllModels), newOnes, docPath))
+						}
+						continue
 					}
 					if match != nil {
 						if !knownSeen[id] {
